@@ -436,6 +436,26 @@ pub fn encode(b: &Build) -> Vec<u8> {
     if let Some(ce) = b.cenc {
         out.extend_from_slice(&[HET_CENC, ce, 0, 0]);
     }
+    if b.sct.is_none() && (b.sct_ert.is_some() || b.sct_slc.is_some()) {
+        // an EXT_TIME without any sender current time (RFC 5651 5.2.2.3: every field of it is optional)
+        let mut flags = 0u8;
+        let mut words = 1u8;
+        if b.sct_ert.is_some() {
+            flags |= 0x20;
+            words += 1;
+        }
+        if b.sct_slc.is_some() {
+            flags |= 0x10;
+            words += 1;
+        }
+        out.extend_from_slice(&[HET_TIME, words, flags, 0]);
+        if let Some(v) = b.sct_ert {
+            out.extend_from_slice(&v.to_be_bytes());
+        }
+        if let Some(v) = b.sct_slc {
+            out.extend_from_slice(&v.to_be_bytes());
+        }
+    }
     if let Some((sec, frac)) = b.sct {
         let mut flags = 0x80u8;
         let mut words = 2u8;
